@@ -8,6 +8,7 @@ import (
 	"fmt"
 	"io"
 	"os"
+	"sort"
 	"strings"
 	"syscall"
 	"testing"
@@ -644,8 +645,10 @@ var vfC10ErrOps = []string{"Mkdir", "Rename", "PosixRename", "RemoveDirectory", 
 
 type vfCaseC10Attrs struct {
 	FI    vfFI
-	Via   string // Stat | Lstat | Fstat | ReadDir
+	Via   string // Stat | Lstat | Fstat | ReadDir | ReadDirMany
 	Alloc bool
+	N     int `json:",omitempty"` // ReadDirMany: entries the handler lists ...
+	Short int `json:",omitempty"` // ... handing out at most this many per ListAt call (0 = as many as fit); "listings as given" (seed C10-e)
 }
 
 func vfRunC10Attrs(ctx *vfCtx, c vfCaseC10Attrs) {
@@ -659,6 +662,16 @@ func vfRunC10Attrs(ctx *vfCtx, c vfCaseC10Attrs) {
 	fi := d.FileInfo()
 	h.infoOverride = map[string]os.FileInfo{"/d/x": fi}
 	h.listOverride = map[string][]os.FileInfo{"/d": {fi}}
+	if c.Via == "ReadDirMany" {
+		var fis []os.FileInfo
+		for i := 0; i < c.N; i++ {
+			e := d
+			e.Name = []byte(fmt.Sprintf("e%04d", i))
+			fis = append(fis, e.FileInfo())
+		}
+		h.listOverride["/d"] = fis
+		h.listShort = c.Short
+	}
 	srv, err := vfStartSrv(vfSrvCfg{Kind: "rs", Alloc: c.Alloc}, "", h)
 	if err != nil {
 		ctx.Failf("harness/server", "%v", err)
@@ -668,6 +681,7 @@ func vfRunC10Attrs(ctx *vfCtx, c vfCaseC10Attrs) {
 		ctx.Failf("harness/client", "%v", err)
 	}
 	var got os.FileInfo
+	many := ""
 	dn, res := vfCall(func() (string, error) {
 		var err error
 		switch c.Via {
@@ -680,6 +694,24 @@ func vfRunC10Attrs(ctx *vfCtx, c vfCaseC10Attrs) {
 			if f, err = cl.Open("/d/x"); err == nil {
 				got, err = f.Stat()
 				f.Close()
+			}
+		case "ReadDirMany":
+			var fis []os.FileInfo
+			if fis, err = cl.ReadDir("/d"); err == nil {
+				var names []string
+				for _, fi := range fis {
+					names = append(names, fi.Name())
+				}
+				sort.Strings(names)
+				for i := 0; i < c.N || i < len(names); i++ {
+					if i >= len(names) || i >= c.N || names[i] != fmt.Sprintf("e%04d", i) {
+						many = fmt.Sprintf("the handler listed %d entries (at most %d per call), the client got %d: %.200v", c.N, c.Short, len(names), names)
+						break
+					}
+				}
+				if len(fis) > 0 {
+					got = fis[0]
+				}
 			}
 		default:
 			var fis []os.FileInfo
@@ -700,6 +732,16 @@ func vfRunC10Attrs(ctx *vfCtx, c vfCaseC10Attrs) {
 	}
 	if res.Err != nil {
 		ctx.Failf("C10/attrs/error/"+c.Via, "%s of an entry the handler reports failed: %v", c.Via, res.Err)
+	}
+	if many != "" {
+		ctx.Failf("C10/listing-not-as-given", "%s", many)
+	}
+	if got == nil {
+		ctx.Class("via=ReadDirMany empty")
+		dc, _ := vfCall(func() (string, error) { return "", cl.Close() })
+		vfAwait(ctx, dc, "Close")
+		vfAwait(ctx, srv.done, "Serve")
+		return
 	}
 	fs, ok := got.Sys().(*sftp.FileStat)
 	if !ok {
@@ -733,7 +775,12 @@ func TestVerifC10(t *testing.T) {
 	t.Run("attrs", func(t *testing.T) {
 		defer vfScaleChecks(4)()
 		vfDriveSub(t, "attrs", vfProp[vfCaseC10Attrs]{ID: "C10", Run: vfRunC10Attrs, Gen: func(rt *rapid.T) vfCaseC10Attrs {
-			return vfCaseC10Attrs{FI: vfGenFI(rt, "fi"), Via: rapid.SampledFrom([]string{"Stat", "Lstat", "Fstat", "ReadDir"}).Draw(rt, "via"), Alloc: rapid.Bool().Draw(rt, "alloc")}
+			c := vfCaseC10Attrs{FI: vfGenFI(rt, "fi"), Via: rapid.SampledFrom([]string{"Stat", "Lstat", "Fstat", "ReadDir", "ReadDirMany"}).Draw(rt, "via"), Alloc: rapid.Bool().Draw(rt, "alloc")}
+			if c.Via == "ReadDirMany" {
+				c.N = rapid.SampledFrom([]int{0, 1, 2, 35, 99, 100, 101, 250}).Draw(rt, "n")
+				c.Short = rapid.SampledFrom([]int{0, 1, 10, 100}).Draw(rt, "short")
+			}
+			return c
 		}})
 	})
 	t.Run("errors", func(t *testing.T) {
